@@ -105,10 +105,14 @@ def shrink_history(case):
         c["ops"] = ops
         yield c
     prog = case["prog"]
-    names = sorted(prog["funcs"], key=lambda x: -int(x[1:]))
-    used_entries = {op["entry"] for op in case["ops"] if op["op"] == "eval"}
+    names = sorted(prog["funcs"], reverse=True)
+    used_entries = {op["entry"] for op in case["ops"] if op["op"] in ("eval", "illeval")}
+    ill_used = set()
+    for e in used_entries:
+        if e in prog["funcs"] and prog["funcs"][e].get("ill"):
+            ill_used |= gen.reachable(prog, e)
     for fn in names:
-        if fn in used_entries:
+        if fn in used_entries or fn in ill_used:
             continue
         c = copy.deepcopy(case)
         del c["prog"]["funcs"][fn]
@@ -120,6 +124,8 @@ def shrink_history(case):
         yield c
     for fn in sorted(prog["funcs"]):
         f = prog["funcs"][fn]
+        if f.get("ill"):
+            continue   # the expected error code is a property of the ill-formed construct: never shrink it
         for idx in range(len(f["body"]) - 1, -1, -1):
             c = copy.deepcopy(case)
             del c["prog"]["funcs"][fn]["body"][idx]
